@@ -11,7 +11,7 @@ use vh::*;
 
 fn gen_stmt(r: &mut Rng, keys: &[i64], init: &Init) -> Stmt {
     let connected: Vec<i64> = init.edges.iter().flat_map(|(a, b)| [init.nodes[*a].0, init.nodes[*b].0]).collect();
-    match r.below(12) {
+    match r.below(16) {
         0 | 1 => Stmt::Create(gen_rows(r, keys, true, true)),
         2 => Stmt::Create(gen_rows(r, keys, false, false)),
         3 | 4 => Stmt::Set(r.below(2) as u8, gen_rows(r, keys, true, false)),
@@ -22,6 +22,24 @@ fn gen_stmt(r: &mut Rng, keys: &[i64], init: &Init) -> Stmt {
             Stmt::Delete(false, k)
         }
         8 => Stmt::Delete(true, r.range(1, 7)),
+        12 | 13 | 14 => {
+            // several targets; plain DELETE is refused when any of them is connected (typically not the first one)
+            let mut ks: Vec<i64> = keys.to_vec();
+            for extra in 1..=7 {
+                if !ks.contains(&extra) && r.chance(1, 4) {
+                    ks.push(extra);
+                }
+            }
+            for i in (1..ks.len()).rev() {
+                ks.swap(i, r.below(i as u64 + 1) as usize);
+            }
+            ks.truncate(2 + r.below(3) as usize);
+            if ks.is_empty() {
+                ks.push(r.range(1, 7));
+            }
+            Stmt::DeleteIn(r.chance(1, 5), ks)
+        }
+        15 => Stmt::DeleteRel(if !connected.is_empty() && r.chance(4, 5) { *r.pick(&connected) } else { r.range(1, 7) }),
         9 => Stmt::Link(r.range(1, 7), r.range(1, 7)),
         10 => Stmt::Merge(r.range(1, 8)),
         _ => Stmt::Syntax(r.below(4) as u8),
@@ -47,6 +65,11 @@ fn main() {
         (conn.clone(), true, vec![Stmt::Set(1, vec![(3, Cell::Int(9))]), Stmt::Delete(false, 1), Stmt::Syntax(0), Stmt::Link(3, 2)]),
         (conn.clone(), true, vec![Stmt::Set(0, vec![(1, Cell::Int(7)), (2, Cell::Bad), (3, Cell::Int(1))])]),
         (conn.clone(), false, vec![Stmt::Set(0, vec![(1, Cell::Int(7)), (2, Cell::Bad), (3, Cell::Int(1))]), Stmt::Delete(false, 2)]),
+        // refused multi-target deletes inside a committed transaction must leave nothing behind (seeded gap C13/m1):
+        // node 3 (unconnected) precedes the connected ones; DELETE r, a where a has a second relationship
+        (Init { nodes: vec![(3, None), (1, Some(5)), (2, None)], edges: vec![(1, 2)] }, true, vec![Stmt::DeleteIn(false, vec![3, 1, 2]), Stmt::Set(1, vec![(3, Cell::Int(4))])]),
+        (Init { nodes: vec![(1, None), (2, None), (3, None)], edges: vec![(0, 1), (1, 2)] }, true, vec![Stmt::DeleteRel(2), Stmt::DeleteIn(false, vec![1, 3])]),
+        (Init { nodes: vec![(1, None), (2, None), (3, None)], edges: vec![(0, 1), (2, 1)] }, true, vec![Stmt::DeleteRel(2), Stmt::DeleteIn(true, vec![1, 3])]),
     ];
     for idx in 0..a.n {
         let (init, explicit, stmts) = if idx < corpus.len() {
@@ -111,7 +134,7 @@ fn main() {
     rep.stats(json!({
         "evaluations": a.n,
         "distinct_nontrivial": nontrivial.len(),
-        "rule": "sequences of 1-4 statements (UNWIND-CREATE / UNWIND-MATCH-SET with a per-row toInteger() that raises at a chosen row, refused DELETE of connected nodes, DETACH DELETE, MATCH-CREATE relationship, MERGE, syntax errors) on databases of 0-4 nodes with parallel edges and self loops; 60% inside one explicit C API transaction committed afterwards, 40% auto-commit; non-trivial = at least one statement failed, distinct by (database, mode, statements)",
+        "rule": "sequences of 1-4 statements (UNWIND-CREATE / UNWIND-MATCH-SET with a per-row toInteger() that raises at a chosen row, refused DELETE of connected nodes (single target, several targets of which a later one is connected, DELETE r, a with a second relationship), DETACH DELETE, MATCH-CREATE relationship, MERGE, syntax errors) on databases of 0-4 nodes with parallel edges and self loops; 60% inside one explicit C API transaction committed afterwards, 40% auto-commit; non-trivial = at least one statement failed, distinct by (database, mode, statements)",
         "histogram": hist,
         "direct_failures": fails,
         "case_files": cw.files.iter().map(|p| p.to_string_lossy().to_string()).collect::<Vec<_>>(),
